@@ -179,6 +179,15 @@ def _do_write(detector, names, seed, dtypes, step) -> None:
             detector.photon.array_3d = xr.DataArray(
                 arr, dims=["wavelength", "y", "x"], coords={"wavelength": [500.0, 600.0, 700.0]})
             continue
+        if name == "photon3dc":
+            # a cube that carries its own y/x coordinates (pixel centres, rows descending): the setter accepts it
+            import xarray as xr
+            arr = gen_array((3, *shape), dtypes.get("photon", "float64"), (seed, step, 1))
+            detector.photon.array_3d = xr.DataArray(
+                arr, dims=["wavelength", "y", "x"],
+                coords={"wavelength": [500.0, 600.0, 700.0], "y": (np.arange(shape[0])[::-1] * 18.0 + 9.0),
+                        "x": np.arange(shape[1]) * 7.0 + 3.0})
+            continue
         if name == "scene":
             continue
         dt = dtypes.get(name, "uint16" if name == "image" else "float64")
@@ -251,7 +260,7 @@ def writer2(detector, **kwargs) -> None:
     keep(detector)
     ev.update(clock(detector))
     emit(ev)
-    rest = [n for n in names if n not in ("scene", "data", "pixel+", "clusters")]
+    rest = [n for n in names if n not in ("scene", "data", "pixel+", "pixel@", "clusters")]
     _do_write(detector, rest, seed, kwargs.get("dtypes") or {}, step)
     if "scene" in names:
         detector.scene.add_source(make_source(seed * 1000 + step))
@@ -270,6 +279,14 @@ def writer2(detector, **kwargs) -> None:
             init_hor_position=rng.random(n) * cols * detector.geometry.pixel_horz_size,
             init_z_position=np.zeros(n), init_ver_velocity=np.zeros(n), init_hor_velocity=np.zeros(n),
             init_z_velocity=np.zeros(n))
+    if "pixel@" in names:
+        # purely in place, through the getter only (no setter call): np.add(..., out=pixel.array)
+        arr = gen_array(detector.geometry.shape, "float64", (seed, step, 3))
+        try:
+            target = detector.pixel.array
+            np.add(target, arr.astype(target.dtype), out=target)
+        except ValueError:
+            detector.pixel.array = arr
     if "pixel+" in names:
         arr = gen_array(detector.geometry.shape, "float64", (seed, step, 3))
         try:
